@@ -211,7 +211,7 @@ func (h *DNSHandler) SendSSDPSearch() (err error) {
 	if ether, err = ether.SetPayload(ip4); err != nil {
 		return err
 	}
-	if _, err := h.session.Conn.WriteTo(ether, &ssdpIPv4Addr); err != nil {
+	if _, err = h.session.Conn.WriteTo(ether, &ssdpIPv4Addr); err != nil {
 		fmt.Printf("mdns  : error failed to write %s\n", err)
 	}
 	return err
